@@ -132,7 +132,7 @@ def nonneg_form(e):
 
 def shapes(tier):
     if tier == "quick":
-        return [(5, 8, 2, 1, False), (7, 8, 3, 2, True), (9, 4, 4, 2, False), (5, 8, 0, 0, True), (7, 4, 7, 4, False)]
+        return [(5, 8, 2, 1, False), (7, 8, 3, 2, True), (9, 4, 4, 2, False), (5, 8, 0, 0, True), (7, 4, 7, 4, False), (11, 8, 6, 4, True), (13, 4, 8, 3, False)]
     out = []
     for nr in (5, 7, 9):
         for nt in (4, 8, 12):
